@@ -166,6 +166,8 @@ def gen_ids(rng, n, prefix):
             s = gen_str(rng, nonempty=True)
             if rng.random() < 0.5:
                 s = prefix + s
+        if rng.random() < 0.1:
+            s += rng.choice(["\n", " ", "\t", "\r\n", "\u00e9\u65e5\U0001F600"])   # trailing newline / blank; UTF-8 longer than text
         s = s.rstrip("\x00") or (prefix + "z")     # numpy text arrays drop trailing NULs
         if s not in seen:
             seen.add(s)
@@ -429,7 +431,9 @@ def apply_inplace_edit(rng, t, edit):
         return True
     if edit == "update_ids_inplace":
         axis = rng.choice(["observation", "sample"])
-        t.update_ids({i: str(i) + "_r\"" for i in t.ids(axis=axis)}, axis=axis, inplace=True)
+        longest = max(len(str(i)) for i in t.ids(axis=axis))
+        # the new IDs are longer than every existing one (fixed-width ID arrays)
+        t.update_ids({i: str(i) + "_r\"" + "L" * (longest + 3) for i in t.ids(axis=axis)}, axis=axis, inplace=True)
         return True
     if edit == "set_type_id":
         t.type = "Taxon table" if t.type != "Taxon table" else None
@@ -439,24 +443,91 @@ def apply_inplace_edit(rng, t, edit):
 
 
 # ----------------------------------------------------------------------------- one case
-def run_case(ctx, t, gen_by, date, tags=(), label=None, want_text=True):
+class MinimalWriter:
+    """a `direct_io` target that has nothing but `write`"""
+
+    def __init__(self):
+        self.parts = []
+
+    def write(self, s):
+        self.parts.append(s)
+
+
+FIXED_NOW = datetime.datetime(2022, 2, 3, 4, 5, 6, 789)
+
+
+class _FixedDT(datetime.datetime):
+    @classmethod
+    def now(cls, tz=None):
+        return cls(2022, 2, 3, 4, 5, 6, 789)
+
+
+EXTRA_READERS = ["load_table_pathlib", "load_table_handle", "parse_table_text", "parse_table_dense_flag", "from_json_dense_flag",
+                 "from_json_data_pump", "from_json_direct", "parse_table_lines_direct", "load_table_gzip_direct"]
+
+
+def run_case(ctx, t, gen_by, date, tags=(), label=None, want_text=True, opts=None):
+    """opts: poke (rng: leave a random layout before each write), direct_first, writer ('file'|'stringio'|'minimal'),
+    extra (names of additional readers), shuffle (rng: order of readers), profile (kwargs for biom.err.errstate),
+    expect (the table content the documents must carry, captured earlier), date None = the writer's default
+    `datetime.now()` (pinned through biom.table.datetime)"""
+    import contextlib
+    import warnings
+    import biom.table as BT
+    import biom.err
+    opts = opts or {}
     os.makedirs(TMP, exist_ok=True)
-    inp = table_input(t)
-    date_s = date.isoformat()
-    case = {"table": inp, "generated_by": gen_by, "date": date_s, "label": label}
+    inp = opts.get("expect") or table_input(t)
+    date_s = (FIXED_NOW if date is None else date).isoformat()
+    case = {"table": inp, "generated_by": gen_by, "date": date_s, "label": label,
+            "opts": {k: (v if isinstance(v, (str, bool, list, dict)) else True) for k, v in opts.items() if k != "expect"}}
     nnz = sum(1 for r in inp["rows"] for x in r if x != "0")
     ctx.case({"table": inp, "generated_by": gen_by, "date": date_s},
              nontrivial=(len(inp["obs"]) * len(inp["samp"]) >= 2 or nnz >= 1))
     p = os.path.join(TMP, "t_%d.biom" % os.getpid())
     pd = p + ".direct"
     pz = p + ".gz"
+    pzd = p + ".direct.gz"
+    old_dt = BT.datetime
+    stack = contextlib.ExitStack()
     try:
+        if date is None:
+            BT.datetime = _FixedDT
+        if opts.get("profile"):
+            stack.enter_context(warnings.catch_warnings())
+            warnings.simplefilter("ignore")
+            stack.enter_context(biom.err.errstate(**opts["profile"]))
         try:
-            text = t.to_json(gen_by, creation_date=date)
-            with open(pd, "w", encoding="utf-8") as f:
-                t.to_json(gen_by, direct_io=f, creation_date=date)
-            with open(pd, encoding="utf-8") as f:
-                text_d = f.read()
+            writer = opts.get("writer", "file")
+
+            def write_string():
+                if opts.get("poke"):
+                    case["opts"].setdefault("poked", []).append(core.poke_layout(t, opts["poke"]))
+                return t.to_json(gen_by, creation_date=date)
+
+            def write_direct():
+                if opts.get("poke"):
+                    case["opts"].setdefault("poked", []).append(core.poke_layout(t, opts["poke"]))
+                if writer == "file":
+                    with open(pd, "w", encoding="utf-8") as f:
+                        ret = t.to_json(gen_by, direct_io=f, creation_date=date)
+                    with open(pd, encoding="utf-8") as f:
+                        out = f.read()
+                else:
+                    w = io.StringIO() if writer == "stringio" else MinimalWriter()
+                    ret = t.to_json(gen_by, direct_io=w, creation_date=date)
+                    out = w.getvalue() if writer == "stringio" else "".join(w.parts)
+                    with open(pd, "w", encoding="utf-8") as f:
+                        f.write(out)
+                if ret is not None:
+                    raise AssertionError("to_json(direct_io=...) returned %r" % (ret,))
+                return out
+            if opts.get("direct_first"):
+                text_d = write_direct()
+                text = write_string()
+            else:
+                text = write_string()
+                text_d = write_direct()
         except Exception as e:  # noqa
             ctx.fail(case, "to_json:raised", list(tags), detail="%s: %s" % (type(e).__name__, e))
             return None
@@ -480,21 +551,54 @@ def run_case(ctx, t, gen_by, date, tags=(), label=None, want_text=True):
             with open(p, encoding="utf-8") as f:
                 return parse_table(f)
 
-        def from_lines():
-            with open(p, encoding="utf-8") as f:
+        def from_lines(q=p):
+            with open(q, encoding="utf-8") as f:
                 return parse_table(f.readlines())
 
-        reads = [
-            read_obs("load_table", lambda: load_table(p)),
-            read_obs("load_table_gzip", lambda: load_table(pz)),
-            read_obs("parse_table_handle", from_handle),
-            read_obs("parse_table_stringio", lambda: parse_table(io.StringIO(text))),
-            read_obs("parse_table_lines", from_lines),
-            read_obs("from_json", lambda: Table.from_json(json.loads(text))),
-            read_obs("load_table_direct", lambda: load_table(pd)),
+        def lt_handle():
+            with open(p, encoding="utf-8") as f:
+                return load_table(f)
+
+        def gz_direct():
+            with gzip.open(pzd, "wb") as f:
+                f.write(text_d.encode("utf-8"))
+            return load_table(pzd)
+
+        def pump():
+            d = json.loads(text)
+            data = d["data"]
+            d["data"] = [[0, 0, 12345.0]] if data else []
+            return Table.from_json(d, data_pump=data) if data else Table.from_json(d)
+
+        readers = [
+            ("load_table", lambda: load_table(p)),
+            ("load_table_gzip", lambda: load_table(pz)),
+            ("parse_table_handle", from_handle),
+            ("parse_table_stringio", lambda: parse_table(io.StringIO(text))),
+            ("parse_table_lines", from_lines),
+            ("from_json", lambda: Table.from_json(json.loads(text))),
+            ("load_table_direct", lambda: load_table(pd)),
         ]
+        extra = {
+            "load_table_pathlib": lambda: load_table(__import__("pathlib").Path(p)),
+            "load_table_handle": lt_handle,
+            "parse_table_text": lambda: parse_table(text),
+            "parse_table_dense_flag": lambda: parse_table(io.StringIO(text), input_is_dense=True),
+            "from_json_dense_flag": lambda: Table.from_json(json.loads(text), input_is_dense=True),
+            "from_json_data_pump": pump,
+            "from_json_direct": lambda: Table.from_json(json.loads(text_d)),
+            "parse_table_lines_direct": lambda: from_lines(pd),
+            "load_table_gzip_direct": gz_direct,
+        }
+        for name in opts.get("extra", ()):
+            readers.append((name, extra[name]))
+        if opts.get("shuffle"):
+            opts["shuffle"].shuffle(readers)
+        reads = [read_obs(name, f) for name, f in readers]
     finally:
-        for q in (p, pd, pz):
+        BT.datetime = old_dt
+        stack.close()
+        for q in (p, pd, pz, pzd):
             if os.path.exists(q):
                 os.remove(q)
     req = {"table": inp, "generated_by": gen_by, "date": date_s, "toks": toks, "toks_direct": toks_d, "reads": reads}
@@ -511,6 +615,26 @@ def run_case(ctx, t, gen_by, date, tags=(), label=None, want_text=True):
     elif not r["agree"]:
         ctx.diverge(case, "model differs: %s" % r["what"], list(tags), detail={"text_direct": text_d[:2000]})
     return r
+
+
+def rand_opts(rng):
+    """stressors for a random case: layout left behind, order of the two writes, kind of stream, extra readers
+    with rarely used arguments, order of the readers, error profile"""
+    o = {}
+    if rng.random() < 0.5:
+        o["poke"] = rng
+    if rng.random() < 0.5:
+        o["direct_first"] = True
+    o["writer"] = rng.choice(["file", "file", "stringio", "minimal"])
+    o["extra"] = rng.sample(EXTRA_READERS, rng.choice([0, 1, 2, 2]))
+    if rng.random() < 0.5:
+        o["shuffle"] = rng
+    c = rng.random()
+    if c < 0.1:
+        o["profile"] = {"empty": "raise"}
+    elif c < 0.2:
+        o["profile"] = {"all": rng.choice(["warn", "call", "print"]), "empty": "ignore"}
+    return o
 
 
 def build_fixed(name):
@@ -568,6 +692,117 @@ FIXED = ["repaired-9c6706ed-header-strings", "repaired-f3626f61-value-precision"
          "id-trailing-newline"]
 
 
+def warmup(ctx):
+    """process-level state: before anything else use the same file path for other formats and the readers with
+    unusual arguments; the default calls of every later case must be unaffected"""
+    import numpy as np
+    import h5py
+    from biom import Table, load_table, parse_table
+    os.makedirs(TMP, exist_ok=True)
+    p = os.path.join(TMP, "t_%d.biom" % os.getpid())
+    t = Table(np.array([[1.0, 0.0], [0.0, 2.5]]), ["w1", "w2"], ["x1", "x2"])
+    try:
+        with h5py.File(p, "w") as f:
+            t.to_hdf5(f, "warmup")
+        load_table(p)
+        with open(p, "w") as f:
+            f.write(t.to_tsv())
+        load_table(p)
+        with gzip.open(p + ".gz", "wb") as f:
+            f.write(t.to_tsv().encode())
+        load_table(p + ".gz")
+        dense = json.loads(t.to_json("warmup"))
+        dense["matrix_type"] = "dense"
+        dense["data"] = [[1.0, 0.0], [0.0, 2.5]]
+        Table.from_json(dense)
+        Table.from_json(json.loads(t.to_json("warmup")), input_is_dense=True)
+        parse_table(io.StringIO(t.to_json("warmup")), ids=["x1"], axis="sample")
+        parse_table([t.to_json("warmup")], ids=["w2"], axis="observation")
+        t.to_json("warmup", direct_io=MinimalWriter(), creation_date=datetime.datetime(1999, 1, 1, tzinfo=datetime.timezone.utc))
+        ctx.count("warmup-ok")
+    except Exception as e:  # noqa
+        ctx.notes.append("warm-up step raised %s: %s" % (type(e).__name__, str(e)[:200]))
+        ctx.count("warmup-raised")
+    finally:
+        for q in (p, p + ".gz"):
+            if os.path.exists(q):
+                os.remove(q)
+
+
+def check_refusal(ctx, t, rng):
+    """`generated_by` must be text: the call is refused, nothing reaches the stream, the table is untouched"""
+    from biom.exception import TableException
+    before = table_input(t)
+    for bad in (5, None, b"bytes", ["g"]):
+        w = MinimalWriter()
+        case = {"table": before, "generated_by": repr(bad), "label": "refusal"}
+        for kw in ({}, {"direct_io": w}):
+            try:
+                t.to_json(bad, **kw)
+                ctx.fail(case, "to_json:non-text-generated_by-accepted", ["refusal"])
+            except TableException:
+                pass
+            except Exception as e:  # noqa
+                ctx.fail(case, "to_json:non-text-generated_by-wrong-exception", ["refusal"], detail=type(e).__name__)
+        if w.parts:
+            ctx.fail(case, "to_json:refused-call-wrote-to-stream", ["refusal"], detail="".join(w.parts)[:200])
+    if table_input(t) != before:
+        ctx.fail({"table": before, "label": "refusal"}, "to_json:refused-call-changed-table", ["refusal"])
+    ctx.count("refusal-checked")
+
+
+DERIVATIONS = ["copy", "filter_false", "sort_order", "transpose2", "sort", "from_json", "ctor_shared_md"]
+SAFE_EDITS = ["del_md_subset_obs", "del_md_subset_samp", "mutate_dict_obs", "mutate_dict_samp", "replace_value_samp",
+              "transform_inplace", "filter_inplace", "update_ids_inplace", "add_md_existing_obs", "set_type_id",
+              "del_md_all_whole"]
+
+
+def derive(t, how):
+    import json as _json
+    from biom import Table
+    if how == "copy":
+        return t.copy()
+    if how == "filter_false":
+        return t.filter(list(t.ids()), inplace=False)
+    if how == "sort_order":
+        return t.sort_order(list(reversed(t.ids())))
+    if how == "transpose2":
+        return t.transpose().transpose()
+    if how == "sort":
+        return t.sort(axis="observation")
+    if how == "from_json":
+        return Table.from_json(_json.loads(t.to_json("derive")))
+    if how == "ctor_shared_md":
+        return Table(t.matrix_data, t.ids(axis="observation"), t.ids(), t.metadata(axis="observation"), t.metadata(),
+                     type=t.type)
+    raise ValueError(how)
+
+
+def alias_case(ctx, rng, src, how, edit, tags):
+    """keep `src` alive, derive a table, edit ONE of the two in place, write the OTHER again: its documents must
+    still carry the content it had before the edit"""
+    try:
+        der = derive(src, how)
+    except Exception as e:  # noqa
+        ctx.count("derive-skipped:%s" % type(e).__name__)
+        return
+    a, b = (src, der) if rng.random() < 0.6 else (der, src)          # a is written, b is edited
+    d0 = datetime.datetime(2020, 5, 6, 7, 8, 9)
+    run_case(ctx, a, "alias", d0, tags=tuple(tags) + ("alias", "first"), label="alias:first:" + how, opts=rand_opts(rng))
+    run_case(ctx, b, "alias", d0, tags=tuple(tags) + ("alias", "first-other"), label="alias:first-other:" + how)
+    expect = table_input(a)
+    try:
+        ok = apply_inplace_edit(rng, b, edit)
+    except Exception as e:  # noqa
+        ctx.count("edit-skipped:%s" % type(e).__name__)
+        return
+    if ok:
+        o = rand_opts(rng)
+        o["expect"] = expect
+        run_case(ctx, a, "alias", d0, tags=tuple(tags) + ("alias", how, edit), label="alias:%s:%s" % (how, edit), opts=o)
+        ctx.count("alias=%s" % how)
+
+
 def run(ctx):
     ctx.rule = ("tables of 1..N x 1..M (N,M <= 6 quick / 9 thorough; plus 0x0) with chosen sparsity patterns (all-zero table, "
                 "fully dense, all-zero rows first/middle/last, all-zero columns), values over counts/dyadics/negatives/"
@@ -577,7 +812,11 @@ def run(ctx):
                 "large tables (120x80 .. 220x110, data block 60-400 KiB) through both writer paths; write -> in-place edit "
                 "(del_metadata subset/all, add_metadata, direct mutation of a metadata mapping or a nested list, in-place "
                 "transform/filter/update_ids, type/id assignment) -> write-again histories on one table object, the "
-                "second document judged against the table's current content; "
+                "second document judged against the table's current content; stressors on a share of all cases: random "
+                "layout left behind by read-only accessors before each write, streamed form written first, stream kinds "
+                "(file / StringIO / write-only object), readers with rarely used arguments and in random order, non-default "
+                "error profiles, the writer's default date; wide tables (>=64 IDs on one axis); aliasing histories (derive a "
+                "table, edit one in place, the other must still write its old content); "
                 "non-trivial = at least two cells or one non-zero value; distinct = distinct (table, generated_by, date)")
     ctx.trusted = ["the harness tokenizer (regex lexer; string literals decoded by json.loads, float literals by float()); "
                    "cross-checked per case by Lean's own Json.parse of the raw characters",
@@ -585,6 +824,7 @@ def run(ctx):
     ctx.assumptions = ["tables with exactly one empty axis (Nx0, 0xM) are outside the property's quantifier and are not generated"]
     os.makedirs(TMP, exist_ok=True)
     rng = ctx.rng
+    warmup(ctx)
     # fixed corpus first: the repaired defects, then shapes the comma logic distinguishes
     for name in FIXED:
         t, g, d = build_fixed(name)
@@ -609,7 +849,8 @@ def run(ctx):
             t = core.build(hist_spec, "dense")
             run_case(ctx, t, "g", datetime.datetime(2020, 1, 2), tags=("history", "first"), label="history:first")
             if apply_inplace_edit(rng, t, edit):
-                run_case(ctx, t, "g", datetime.datetime(2020, 1, 2), tags=("history", edit), label="history:" + edit)
+                run_case(ctx, t, "g", datetime.datetime(2020, 1, 2), tags=("history", edit), label="history:" + edit,
+                         opts=rand_opts(rng))
                 ctx.count("history=" + edit)
                 # and once more after a second, different edit
                 e2 = "mutate_dict_samp" if edit != "mutate_dict_samp" else "del_md_subset_obs"
@@ -626,11 +867,47 @@ def run(ctx):
                           rng.choice(["int", "frac", "mixed"])))
     for (ln, lm, dens, kind) in large:
         t = large_table(rng, ln, lm, dens, kind)
+        lo = {"poke": rng, "direct_first": rng.random() < 0.5, "writer": rng.choice(["file", "stringio", "minimal"])}
         run_case(ctx, t, "large \"tables\"", datetime.datetime(2021, 3, 4, 5, 6, 7), tags=("large", kind),
-                 label="large:%dx%d:%s:%s" % (ln, lm, dens, kind))
+                 label="large:%dx%d:%s:%s" % (ln, lm, dens, kind), opts=lo)
         ctx.count("large-table")
         ctx.count("large-data-KiB>=64" if t.nnz * 16 >= 65536 else "large-data-KiB<64")
-    n = 1050 if ctx.quick() else 15000
+    # many IDs on one axis, few on the other (size thresholds such as 64 IDs), every layout route; and a table whose
+    # "rows" block alone exceeds 64 KiB (long metadata)
+    for k in range(4 if ctx.quick() else 24):
+        axis = ["sample", "observation"][k % 2]
+        spec = core.wide_spec(rng, axis=axis, classes=("count", "dyadic", "tiny"), md=(k % 4 < 2))
+        t = core.build(spec, rng.choice(["csc", "csr_unsorted", "coo", "sort_roundtrip"]))
+        run_case(ctx, t, "wide", datetime.datetime(2021, 3, 4), tags=("wide", axis), label="wide:" + axis, opts=rand_opts(rng))
+        ctx.count("wide-axis=" + axis)
+    import numpy as _np
+    from biom import Table as _Table
+    nb = 300
+    omd = [{"taxonomy": ["k__%s" % ("x" * 40), "p__\"%d" % i, "long " * 30], "note": "\\" * 20 + str(i)} for i in range(nb)]
+    arr = _np.zeros((nb, 3))
+    arr[::7, 1] = 2.5
+    arr[5::11, 2] = 1e-7
+    t = _Table(arr, ["obs_%d" % i for i in range(nb)], ["s1", "s2", "s3"], omd, [{"d": "x" * 70000}, {"d": ""}, {"d": "y"}])
+    run_case(ctx, t, "heavy metadata", datetime.datetime(2021, 3, 4), tags=("large", "rows-block"), label="large:rows-block",
+             opts={"direct_first": True, "writer": "minimal", "poke": rng})
+    ctx.count("large-rows-block")
+    # the writer's default creation date (datetime.now(), pinned), alone and after an explicit date
+    for k, name in enumerate(["middle-zero-row", "metadata-kinds", "repaired-9c6706ed-header-strings"]):
+        t, g, d = build_fixed(name)
+        if k == 1:
+            run_case(ctx, t, g, d, tags=("default-date", "explicit-first"), label=name)
+        run_case(ctx, t, g, None, tags=("default-date",), label="default-date:" + name, opts=rand_opts(rng))
+        ctx.count("default-date")
+    # refused calls
+    t, g, d = build_fixed("metadata-partial")
+    check_refusal(ctx, t, rng)
+    run_case(ctx, t, g, d, tags=("after-refusal",), label="after-refusal")
+    # aliasing between live tables: systematic over the ways a table is derived
+    for how in DERIVATIONS:
+        for edit in (["mutate_dict_obs", "del_md_subset_samp", "transform_inplace", "update_ids_inplace"] if ctx.quick()
+                     else SAFE_EDITS):
+            alias_case(ctx, rng, core.build(hist_spec, rng.choice(core.ROUTES)), how, edit, ("systematic",))
+    n = 820 if ctx.quick() else 13000
     max_n = 6 if ctx.quick() else 9
     for k in range(n):
         spec = gen_spec(rng, max_n, max_n)
@@ -643,8 +920,18 @@ def run(ctx):
             ctx.count("build-skipped:%s" % type(e).__name__)
             continue
         g = gen_str(rng)
-        d = gen_date(rng)
-        r = run_case(ctx, t, g, d, tags=("random", route, op), label="random:%s:%s" % (route, op), want_text=True)
+        d = gen_date(rng) if rng.random() < 0.97 else None
+        if rng.random() < 0.08:
+            alias_case(ctx, rng, t, rng.choice(DERIVATIONS), rng.choice(SAFE_EDITS), ("random", route, op))
+            continue
+        o = rand_opts(rng)
+        r = run_case(ctx, t, g, d, tags=("random", route, op), label="random:%s:%s" % (route, op), want_text=True, opts=o)
+        for key in ("poke", "direct_first", "profile"):
+            if o.get(key):
+                ctx.count("opt=" + key)
+        ctx.count("writer=" + o["writer"])
+        for e in o["extra"]:
+            ctx.count("reader+" + e)
         if r is not None and rng.random() < 0.3:
             edit = rng.choice(INPLACE_EDITS)
             try:
@@ -654,7 +941,7 @@ def run(ctx):
                 ok = False
             if ok:
                 run_case(ctx, t, gen_str(rng), gen_date(rng), tags=("random", "history", edit, route, op),
-                         label="history:%s:%s:%s" % (edit, route, op))
+                         label="history:%s:%s:%s" % (edit, route, op), opts=rand_opts(rng))
                 ctx.count("history=" + edit)
         ctx.count("route=" + route)
         ctx.count("prior=" + op)
@@ -665,6 +952,10 @@ def run(ctx):
                                 "single-col" if len(spec["samp"]) == 1 else "general"))
         ctx.count("pattern=%s" % ("all-zero" if nz == 0 else "dense" if nz == len(spec["obs"]) * len(spec["samp"]) else
                                   "zero-rows" if zr else "sparse"))
+    for name in FIXED[:4]:
+        t, g, d = build_fixed(name)
+        run_case(ctx, t, g + " (again)", d, tags=("fixed", name, "end-of-run"), label=name)
+        ctx.count("fixed-corpus-again")
     if os.path.isdir(TMP) and not os.listdir(TMP):
         os.rmdir(TMP)
 
